@@ -276,6 +276,7 @@ pub fn c14(ctx: &mut Ctx, tier: &str, seed: u64) {
     let dom = gen::utf8_dom(tier, seed);
     let args: Vec<&str> = vec!["", "é", "日/😀", "..\\é", "/é", "C:é", "é.日", "a", ".", "x.😀"];
     for s in &dom {
+        crate::util::at(format!("comps w {}", hex(s)));
         let st = std::str::from_utf8(s).unwrap();
         let multibyte = s.iter().any(|b| *b >= 0x80);
         for win in [false, true] {
@@ -510,6 +511,7 @@ pub fn c15(ctx: &mut Ctx, tier: &str, seed: u64) {
     let dom = dedup_keep_order(dom);
     let args: Vec<&[u8]> = vec![b"", b"a", b"..\\b", b"/x", b"C:y", b"a.b", br"\\?\C:\z", b".", b"a/../..", "é".as_bytes()];
     for s in &dom {
+        crate::util::at(format!("derive {}", hex(s)));
         // deriving the type from raw bytes
         let d = TypedPath::derive(s);
         let want_win = s.first() == Some(&b'\\') || crate::spec::win_prefix(s).is_some();
@@ -598,6 +600,7 @@ pub fn c18(ctx: &mut Ctx, tier: &str, seed: u64) {
     for (name, s) in &shapes {
         let win = name.starts_with("w:");
         for a in &args {
+            crate::util::at(format!("push {} {} {}", gen::e(win), hex(&s[..s.len().min(64)]), hex(&a[..a.len().min(64)])));
             let started = std::time::Instant::now();
             let tb = t_bytes(win, s, a);
             let tt = t_typed(win, s, a);
@@ -627,6 +630,7 @@ pub fn c18(ctx: &mut Ctx, tier: &str, seed: u64) {
         let aa: Vec<&[u8]> = vec![b"", b"a", b"../b", b"/", b"C:", b"\\\\", b"a.b."];
         for (i, s) in dom.iter().enumerate() {
             let a = aa[i % aa.len()];
+            crate::util::at(format!("push {} {} {}", gen::e(win), hex(s), hex(a)));
             let tb = t_bytes(win, s, a);
             ctx.case(comps(win, s).len() >= 2, (win, s, a));
             if tb.iter().any(|l| l == "PANIC") {
@@ -652,6 +656,7 @@ pub fn c18(ctx: &mut Ctx, tier: &str, seed: u64) {
         let st = std::str::from_utf8(s).unwrap();
         for win in [false, true] {
             let a = aa[(i + win as usize) % aa.len()];
+            crate::util::at(format!("setext {} {} {}", gen::e(win), hex(s), hex(a.as_bytes())));
             ctx.case(s.iter().any(|b| *b >= 0x80), (win, s, a, 7u8));
             if t_utf8(win, st, a).iter().any(|l| l == "PANIC") || t_typed8(win, st, a).iter().any(|l| l == "PANIC") {
                 ctx.fail("panic-utf8", None, format!("setext {} {} {}", gen::e(win), hex(s), hex(a.as_bytes())), format!("some UTF-8 operation panicked on \"{}\" with argument \"{}\"", st, a));
@@ -732,6 +737,7 @@ pub fn c19(ctx: &mut Ctx, tier: &str, _seed: u64) {
         }};
     }
     for s in &dom {
+        crate::util::at(format!("comps w {}", hex(s)));
         ctx.case(s.iter().any(|b| *b >= 0x80), s);
         ctx.tally(if std::str::from_utf8(s).is_ok() { "valid-utf8" } else { "invalid-utf8" });
         chains!(ctx, s, UnixPath, UnixPathBuf, "u");
